@@ -1272,6 +1272,14 @@ func (f *VFSFile) buildIndexMap(ctx context.Context, infos []*ltx.FileInfo) (map
 		commit = hdr.Commit
 	}
 
+	// An earlier file of the plan may hold pages beyond the final database
+	// size (the database shrank afterwards); they are not part of the database.
+	for pgno := range index {
+		if pgno > commit {
+			delete(index, pgno)
+		}
+	}
+
 	f.mu.Lock()
 	f.commit = commit
 	f.mu.Unlock()
